@@ -180,10 +180,10 @@ def tie_program(h, target, steps):
                     else: f(c, A)
                 except Exception:
                     pass
-        seen = h.plain(getattr(o, aname))
+        seen = h.strict(getattr(o, aname))
     with db_session:
         o2 = (h.J if h.TARGETS[target][0] == 'J' else h.R)[h.TARGETS[target][1]]
-        stored = h.plain(getattr(o2, h.TARGETS[target][2]))
+        stored = h.strict(getattr(o2, h.TARGETS[target][2]))
     _restore(h)
     return seen, stored
 
